@@ -39,10 +39,10 @@ TInit == /\ l = 1 /\ tr = NoRecv0 /\ pend = <<>>
          \* the variables of ScRecv that the receiver operators read
          /\ mode = "None"
          /\ plan = <<>> /\ sp = Plain /\ sw = [kind |-> "none", from |-> 0]
-         /\ sentN = <<>> /\ nextSeq = 0 /\ wire = <<>> /\ held = <<>> /\ heldAge = 0 /\ budget = 0
+         /\ sentN = <<>> /\ nextSeq = 0 /\ wire = <<>> /\ held = <<>> /\ heldAge = 0 /\ budget = 0 /\ renewed = FALSE
          /\ rc = NoRecv0 /\ ra = NoRecv0 /\ hist = <<>>
 
-Keep == UNCHANGED <<plan, sp, sw, sentN, nextSeq, wire, held, heldAge, budget, rc, ra, hist>>
+Keep == UNCHANGED <<plan, sp, sw, sentN, nextSeq, wire, held, heldAge, budget, renewed, rc, ra, hist>>
 
 More == l <= Len(Log)
 
